@@ -31,6 +31,46 @@ def generate(rng, tier, shard, nshards):
         yield lops.event("blocks", base, site="blocks", feat=feat)
 
 
+def order_events(rng, tier):
+    """(C) every graph on 3 nodes (the scope of Tarjan.tla) under sampled visiting orders, on the real function."""
+    import itertools
+    out = []
+    n = 3
+    pairs = [(i, j) for i in range(n) for j in range(n)]
+    for mask in range(2 ** len(pairs)):
+        edges = [[i, j, 1] for k, (i, j) in enumerate(pairs) if mask >> k & 1]
+        A = {"n": n, "edges": edges}
+        for _ in range(2 if tier == "quick" else 12):
+            roots = list(range(n))
+            rng.shuffle(roots)
+            rank = []
+            for v in range(n):
+                r = list(range(n))
+                rng.shuffle(r)
+                rank.append(r)
+            out.append(lops.event("blocks_order", {"sr": "Bool", "A": A, "roots": roots, "succ_rank": rank},
+                                  site="scc_decomposition[order]", feat="visit-order/" + lops.gfeat(A)))
+    return out
+
+
+TARJAN_CFG = """CONSTANT N = %d
+INIT Init
+NEXT Next
+INVARIANT Partition
+INVARIANT TopoOrder
+INVARIANT EmittedAreSCCs
+CHECK_DEADLOCK FALSE
+"""
+
+
+def model_check(report, tier):
+    from common import run_tlc, MachineryError
+    res = run_tlc("Tarjan", TARJAN_CFG % 3, timeout=3000)
+    if not res.ok or res.left != 0:
+        raise MachineryError("Tarjan.tla: design-level check failed (the model, not the code):\n" + res.errhead)
+    report.add_tlc(res, "Tarjan.tla: every graph on 3 nodes x every root order x every successor order: Partition, TopoOrder, EmittedAreSCCs")
+
+
 def selftests(events, rng):
     out = []
     cands = [e for e in events if "exc" not in e and e["op"] == "closure" and e["K"]]
@@ -50,7 +90,10 @@ def selftests(events, rng):
 
 
 def run(report, tier, seed):
-    standard_run(report, "C15", MODULE, tier, seed, selftests, trivial=("acyclic",),
+    import random
+    model_check(report, tier)
+    standard_run(report, "C15", MODULE, tier, seed, selftests, trivial=("acyclic", "visit-order/acyclic"),
+                 extra_events=order_events(random.Random(seed + 9), tier),
                  sample_keys=("op", "sr", "A", "K", "b", "x", "blocks", "site"),
                  rule=("random graphs (1-5 nodes of mixed name types, self loops, nested cycles, isolated nodes) over "
                        "Sat3/Sat2/Bool (closure = least fixed point of K = I + K A reached exactly), exact rationals (acyclic: "
